@@ -1,9 +1,21 @@
 """C05 - at quiescence lookups, iteration and len() agree and the table is well formed (mode B quiescence oracle)."""
 from ._seq import run_property
+from ._conc import conc_extra
+from ..concheck import ConcScenario
+
+
+def conc(tier):
+    return [
+        # a decrement overtaking the increment of the insert it undoes
+        ConcScenario('empty/insert-vs-remove-same-key', hasher='identity', capacity=None, prefill=[], threads=[[('insert', 1)], [('remove', 1)]], preemptions=2),
+        ConcScenario('list/insert-vs-clear', hasher='identity', capacity=2, prefill=[0], threads=[[('insert', 4)], [('clear',)]], preemptions=2),
+        ConcScenario('resize/insert-vs-insert', hasher='identity', capacity=1, prefill=[0], threads=[[('insert', 1)], [('insert', 2)]], preemptions=2),
+    ]
 
 
 def run(tier: str) -> int:
     return run_property('C05', tier, 'model_checking',
                         {'operations': 'as C02 (core alphabet in quick); the quiescence oracle runs at the end of every path (thorough: after every step)',
                          'oracle': 'table length power of two, next_table null, size_ctl = 0.75*len, no forwarding marker, every node in bin hash&(len-1) (solver query on the symbolic hash), stored hash = hash of key, no key twice (solver), count = entries = len(), iteration = reference, get of every key'},
-                        ['quiescent points after sequential histories only'])
+                        ['quiescent points after sequential histories and after the bounded two-thread histories of the interleaving section'],
+                        extra=conc_extra('C05', conc, None, 'after all threads have left: count = entries = len(), placement, no marker'))
